@@ -568,6 +568,18 @@ def concretize(shape):
         redeem = b"\x51" + push_enc(b"\x42" * 32)
     elif pk == "witv0bad":
         spk = b"\x00" + push_enc(b"\x42" * 25)
+    elif pk == "witv1-40":
+        spk = b"\x51" + push_enc(b"\x42" * 40)
+    elif pk == "witv0-40":
+        spk = b"\x00" + push_enc(b"\x42" * 40)
+    elif pk == "witv1-2":
+        spk = b"\x51" + push_enc(b"\x42" * 2)
+    elif pk == "wit41":
+        spk = b"\x51" + push_enc(b"\x42" * 41)       # 43 bytes: too long to be a witness program
+    elif pk == "wit1":
+        spk = b"\x51" + push_enc(b"\x42" * 1)        # 3 bytes: too short to be a witness program
+    elif pk == "witv16":
+        spk = b"\x60" + push_enc(b"\x42" * 32)
     elif pk == "p2sh19":
         spk = b"\xa9\x13" + b"\x42" * 19 + b"\x87\x87"
     if redeem is not None:
@@ -596,7 +608,7 @@ def concretize(shape):
     else:
         sig_items = list(items)
         witness = []
-    if pk in ("witv1", "witv0bad", "p2sh-witv1"):
+    if pk in ("witv1", "witv0bad", "p2sh-witv1", "witv1-40", "witv0-40", "witv1-2", "witv16"):
         witness = [b"\x01"]
 
     def push_min(b):
